@@ -46,14 +46,10 @@ Definition zobs_eqb : option (list zobs) -> option (list zobs) -> bool := eqb_of
 
 (** ** The input shapes of the recorded findings (narrow, over the input only) *)
 Definition mem (k : N) (ks : list N) : bool := existsb (N.eqb k) ks.
-Definition lax_of (ks : list N) : laxity := mkLax (mem 3 ks) (mem 1 ks) (mem 2 ks) (mem 4 ks) (mem 5 ks).
+Definition lax_of (ks : list N) : laxity := mkLax (mem 3 ks) (mem 4 ks) (mem 5 ks).
 
-(** F-C13-1: a link with a non-empty tracestate *)
-Definition shape_link_ts (l : list (item span)) : bool :=
-  existsb (fun x => existsb (fun k => negb (is_nil (ln_tstate k))) (sp_links (it_body x))) l.
-(** F-C13-2: a log record with dropped attributes *)
-Definition shape_log_dropped (l : list (item lrec)) : bool :=
-  existsb (fun x => (0 <? lr_dropped (it_body x))%Z) l.
+(** (F-C13-1 link tracestate and F-C13-2 log dropped count are repaired in /repo: codes 1 and 2 are
+    retired; their old failing inputs stay in the harness's fixed corpus and are judged like any other case.) *)
 (** F-C13-3: two resources of the batch with equal attributes and different schema URLs *)
 Definition shape_schema_twins {B} (l : list (item B)) : bool :=
   existsb (fun x => existsb (fun y => eqb_of attrs_eq_dec (r_attrs (it_res x)) (r_attrs (it_res y)) &&
@@ -89,7 +85,7 @@ Definition check_case (c : case) : list N :=
       let m := spans_pb l in
       let h := opt_or http wire in
       let g := opt_or grpc wire in
-      let shapes := [(1, shape_link_ts l); (3, shape_schema_twins l)] in
+      let shapes := [(3, shape_schema_twins l)] in
       flag (tobs_eqb m wire && tobs_eqb m h && tobs_eqb m g) V_MISMATCH ++
       judge (fun lx => trace_spec lx l wire && trace_spec lx l h && trace_spec lx l g && tobs_eqb h g) shapes ++
       flag (trace_spec (lax_of (present_of shapes)) l m) V_MODELSPEC
@@ -97,7 +93,7 @@ Definition check_case (c : case) : list N :=
       let l := resolve rs ss items in
       let m := logs_pb l in
       let g := opt_or grpc http in
-      let shapes := [(2, shape_log_dropped l); (3, shape_schema_twins l); (4, shape_empty_value l)] in
+      let shapes := [(3, shape_schema_twins l); (4, shape_empty_value l)] in
       flag (lobs_eqb m http && lobs_eqb m g) V_MISMATCH ++
       judge (fun lx => log_spec lx l http && log_spec lx l g && lobs_eqb http g) shapes ++
       flag (log_spec (lax_of (present_of shapes)) l m) V_MODELSPEC
